@@ -136,6 +136,7 @@ let run (path : string) =
            | _ -> failwith "xenv line") in
        let benv = { Gauge.be_farm = farms; be_recv = recvs; be_ext = xenvs } in
        let o = Gauge.Begin (now, benv) in
+       if not (Gauge.op_wf o) then cmpf "env.recv_nonneg" "true" "false";
        (* known-finding classes met by this step (on the state it starts from) *)
        let k2 = Gauge.kf2_begin now benv m and k3 = Gauge.kf3_begin now benv m in
        if !dirty = "none" then (if k2 then dirty := "kf_C19_2" else if k3 then dirty := "kf_C19_3");
